@@ -616,11 +616,13 @@ func TestVerifC20(t *testing.T) {
 	}
 
 	// Engine B part: placeholder replacement keeps length and replaces exactly the placeholders
-	alpha := []byte("${}a '\n")
+	alpha := []byte("${}a '\n\\")
 	var idx int64
 	// longer scripts than the enumeration reaches: }} inside string literals of the expression
 	if r.Shard == 0 {
-		for _, sc := range []string{"${{'}}'}}", "echo ${{ format('{0}}}', github.sha) }} ${{ '}}' }} end", "${{ 'a''}}' }}x ${{ 1 }}", "a ${{ contains('}}', '${{') }} b", "${{ '' }} }} ${{ '}}'}}"} {
+		for _, sc := range []string{"${{'}}'}}", "echo ${{ format('{0}}}', github.sha) }} ${{ '}}' }} end", "${{ 'a''}}' }}x ${{ 1 }}", "a ${{ contains('}}', '${{') }} b", "${{ '' }} }} ${{ '}}'}}",
+			// a backslash is an ordinary character of a string literal, also directly before the closing quote
+			"${{ format('{0}\\', github.workspace) }} x ${{ 1 }}", "echo ${{ 'a\\' }} ${{ '\\''}}' }} end", "${{ '\\' }}}}"} {
 			c20SanitizeCheck(r, sc)
 		}
 	}
@@ -793,6 +795,34 @@ func TestVerifC20Race(t *testing.T) {
 			}
 		}
 		runtime.GOMAXPROCS(old)
+	}
+	// the command runner itself used by several goroutines at once (as the repository's own
+	// TestProcessRunConcurrentlyAndWait does): run() and wait() of one externalCommand
+	for rep := 0; rep < reps*4; rep++ {
+		proc := newConcurrentProcess(3)
+		cmd, err := proc.newCommandRunner("shellcheck", false)
+		if err != nil {
+			t.Fatal(err)
+		}
+		var wg sync.WaitGroup
+		for g := 0; g < 4; g++ {
+			wg.Add(1)
+			go func(g int) {
+				defer wg.Done()
+				for k := 0; k < 3; k++ {
+					cmd.run([]string{"-"}, "echo", func(b []byte, err error) error {
+						if g == 1 && k == 1 {
+							return fmt.Errorf("dummy failure")
+						}
+						return nil
+					})
+				}
+			}(g)
+		}
+		wg.Wait()
+		_ = cmd.wait()
+		proc.wait()
+		runs++
 	}
 	fmt.Printf("VERIF-RACE-RUNS %d\n", runs)
 }
